@@ -64,14 +64,15 @@ def run(ck, ix, tier):
     ck.check(bool(rets) and all(scalar(v) or (isinstance(v, ast.Constant) and v.value is None) or norm(v) == "factor" for v in fvals) and any(scalar(v) for v in fvals) or
              any(isinstance(a_, ast.Assign) and norm(a_.targets[0]) == "factor" and scalar(a_.value) for a_ in walk_local(fi.node)),
              "G-PROV", "_get_root_units|factor-is-scalar-accumulator", fi.loc(), "factor read from the scalar accumulator", "the factor is no longer the scalar (None) slot of the accumulator")
-    comps = [c for c in walk_local(fi.node) if isinstance(c, ast.DictComp) and "accumulators" in norm(c.generators[0].iter)]
-    popped = any(isinstance(c_, ast.Call) and norm(c_) == "accumulators.pop(None)" and c_.lineno < comps[0].lineno for c_ in walk_local(fi.node)) if comps else False
+    ucs = [c for c in walk_local(fi.node) if isinstance(c, ast.Call) and norm(c.func) in ("self.UnitsContainer", "UnitsContainer") and c.args]
     okc = False
-    for c in comps:
-        g = c.generators[0]
-        kv = [e.id for e in g.target.elts] if isinstance(g.target, ast.Tuple) and all(isinstance(e, ast.Name) for e in g.target.elts) else ["k", "v"]
-        ifs = [norm(i) for i in g.ifs for i in (i.values if isinstance(i, ast.BoolOp) and isinstance(i.op, ast.And) else [i])]
-        okc = okc or ((f"{kv[0]} is not None" in ifs or popped) and (f"{kv[1]} != 0" in ifs or f"{kv[1]}" in ifs))
+    for c in ucs:
+        ef = shape.entry_facts(fi.node, c.args[0])
+        if ef is None or "accumulators" not in ef[1]:
+            continue
+        facts, _src = ef
+        popped = any(isinstance(c_, ast.Call) and norm(c_) == "accumulators.pop(None)" and c_.lineno < c.lineno for c_ in walk_local(fi.node))
+        okc = okc or (((("K is None", False) in facts) or popped) and ((("V == 0", False) in facts) or (("V", True) in facts)))
     ck.check(okc, "G-CANON",
              "_get_root_units|units-without-scalar-slot-and-zeros", fi.loc(), "root units exclude the scalar slot and zero exponents", "the root-units container can keep the scalar slot or zero exponents")
 
@@ -134,7 +135,8 @@ def run(ck, ix, tier):
     ck.floor("G-PROV", n, 5, "functions on the factor path scanned for float contamination")
 
     # ------------------------------------------------------------ get_name: on-the-fly prefixed units
-    fi = ix.func(PR, "GenericPlainRegistry.get_name")
+    from ..lib import inlined as _inl
+    fi = _inl(ix, ix.func(PR, "GenericPlainRegistry.get_name"), skip=("_helper_adder", "_helper_single_adder"))     # an extracted `_define_prefixed_unit` is looked through
     ck.analysed(fi)
     defs = defs_of(fi)
     stores = [(p, k, nd) for (p, k, nd) in writes_in(fi.node) if p.startswith("self._units") and "casei" not in p and isinstance(nd, ast.Assign)]
